@@ -319,7 +319,11 @@ pub fn run(ctx: &Ctx) -> Rep {
             if drive::max_suit_count(c) == 6 {
                 for q in &perms6 {
                     let a = [c[q[0] as usize], c[q[1] as usize], c[q[2] as usize], c[q[3] as usize], c[q[4] as usize], c[q[5] as usize]];
-                    check_rank_of_cards(st, "Six::hand_rank", &a, Six::from(words_of(&a)).hand_rank(), key, o);
+                    {
+                        let h = Six::from(words_of(&a));
+                        check_rank_of_cards(st, "Six::hand_rank", &a, h.hand_rank(), key, o);
+                        check_rank_of_cards(st, "Six::hand_rank_validated", &a, h.hand_rank_validated(), key, o);
+                    }
                 }
                 st.rep.add("single_suit_six_card_hands_in_every_slot_order", 1);
             } else if o <= 10 {
@@ -331,7 +335,11 @@ pub fn run(ctx: &Ctx) -> Rep {
                     } else {
                         a = permuted(c, &mut rng);
                     }
-                    check_rank_of_cards(st, "Six::hand_rank", &a, Six::from(words_of(&a)).hand_rank(), key, o);
+                    {
+                        let h = Six::from(words_of(&a));
+                        check_rank_of_cards(st, "Six::hand_rank", &a, h.hand_rank(), key, o);
+                        check_rank_of_cards(st, "Six::hand_rank_validated", &a, h.hand_rank_validated(), key, o);
+                    }
                 }
                 st.rep.add("straight_flush_six_card_hands_in_directed_orders", 1);
             }
@@ -378,12 +386,20 @@ pub fn run(ctx: &Ctx) -> Rep {
                         }
                         a[5] = c[i];
                         a[6] = c[j];
-                        check_rank_of_cards(st, "Seven::hand_rank", &a, Seven::from(words_of(&a)).hand_rank(), key, o);
+                        {
+                        let h = Seven::from(words_of(&a));
+                        check_rank_of_cards(st, "Seven::hand_rank", &a, h.hand_rank(), key, o);
+                        check_rank_of_cards(st, "Seven::hand_rank_validated", &a, h.hand_rank_validated(), key, o);
+                    }
                     }
                 }
                 for _ in 0..22 {
                     let a = permuted(c, &mut rng);
-                    check_rank_of_cards(st, "Seven::hand_rank", &a, Seven::from(words_of(&a)).hand_rank(), key, o);
+                    {
+                        let h = Seven::from(words_of(&a));
+                        check_rank_of_cards(st, "Seven::hand_rank", &a, h.hand_rank(), key, o);
+                        check_rank_of_cards(st, "Seven::hand_rank_validated", &a, h.hand_rank_validated(), key, o);
+                    }
                 }
                 st.rep.add("straight_flush_or_single_suit_seven_card_hands_in_directed_orders", 1);
             }
